@@ -101,6 +101,36 @@ class Repo(object):
             raise AnalysisError('anchor function %s not found' % qual)
         return node
 
+    def nfunc(self, qual):
+        '''the function in NORMAL FORM (sa/normal.py): helpers outside the reference inventory inlined, temporaries folded,
+        guards canonical.  For rules that read the shape of a function: the reference and every equivalent rewrite of it
+        have the same normal form.'''
+        if qual in self._func_cache:
+            return self._func_cache[qual]
+        from . import normal, equiv
+        self.func(qual)     # anchor must exist
+        mods = {name: equiv._Mod(ast.parse(m.source)) for name, m in self.modules.items() if name == qual.partition(':')[0]}
+        try:
+            inv = equiv.inventory()
+        except Exception:
+            inv = None
+        normal.Normalizer(mods, inventory=inv, only={qual}).run()
+        out = None
+        for name, m in mods.items():
+            for q, fn, body, cls in equiv.functions(m.tree, name):
+                if q == qual:
+                    out = fn
+        if out is None:
+            raise AnalysisError('anchor function %s not found' % qual)
+        real = self.modules[qual.partition(':')[0]]
+        for node in ast.walk(out):
+            for child in ast.iter_child_nodes(node):
+                child._parent = node
+            node._module = real
+        out._parent = None
+        self._func_cache[qual] = out
+        return out
+
     def cls(self, qual, required=True):
         node = self._lookup(qual, ast.ClassDef)
         if node is None and required:
